@@ -429,6 +429,68 @@ func isSlashFullName(v ssa.Value, srcP *ssa.Parameter) (bool, string) {
 	return false, fmt.Sprintf("expression form %T not recognised", v)
 }
 
+// nonNilIface: v is a non-nil interface value: a MakeInterface, or a phi whose parameter edges come only from
+// blocks reached through the non-nil outcome of a nil test of that parameter.
+func nonNilIface(v ssa.Value, depth int) (bool, string) {
+	if depth > 6 {
+		return false, "value chain too long"
+	}
+	switch t := v.(type) {
+	case *ssa.MakeInterface:
+		return true, ""
+	case *ssa.ChangeInterface:
+		return nonNilIface(t.X, depth+1)
+	case *ssa.Phi:
+		for i, e := range t.Edges {
+			if p, ok := e.(*ssa.Parameter); ok {
+				pred := t.Block().Preds[i]
+				if !paramNonNilOnEdge(p, pred, t.Block()) {
+					return false, "parameter " + p.Name() + " reaches the call without a nil test on some path"
+				}
+				continue
+			}
+			if ok, why := nonNilIface(e, depth+1); !ok {
+				return false, why
+			}
+		}
+		return true, ""
+	case *ssa.Parameter:
+		return false, "parameter " + t.Name() + " is used without any nil test"
+	}
+	return false, "value " + v.String() + " not recognised as non-nil"
+}
+
+// paramNonNilOnEdge: the edge pred->succ is only taken when p != nil: pred (or a dominator of pred) is the
+// outcome block of `p == nil` (false edge) / `p != nil` (true edge), or pred itself ends in that test and succ is that outcome.
+func paramNonNilOnEdge(p *ssa.Parameter, pred, succ *ssa.BasicBlock) bool {
+	for _, r := range *p.Referrers() {
+		bo, ok := r.(*ssa.BinOp)
+		if !ok || !(isNilConst(bo.X) || isNilConst(bo.Y)) {
+			continue
+		}
+		for _, r2 := range *bo.Referrers() {
+			iff, ok := r2.(*ssa.If)
+			if !ok {
+				continue
+			}
+			idx := 0 // outcome index where p != nil
+			if bo.Op == token.EQL {
+				idx = 1
+			} else if bo.Op != token.NEQ {
+				continue
+			}
+			out := iff.Block().Succs[idx]
+			if iff.Block() == pred && out == succ {
+				return true
+			}
+			if len(out.Preds) == 1 && out.Dominates(pred) {
+				return true
+			}
+		}
+	}
+	return false
+}
+
 func runUnpack(c *core.Ctx, up *ssa.Function) {
 	const src = "S0"
 	fset := c.Prog.Fset
@@ -467,6 +529,18 @@ func runUnpack(c *core.Ctx, up *ssa.Function) {
 		}
 		fa, ok := u.X.(*ssa.FieldAddr)
 		return ok && fa.X == anyP && fieldName(fa) == "TypeUrl"
+	}
+	// 0. the resolvers are non-nil where they are used: a nil parameter is replaced by the global default on every path
+	nonNilRecv := func(call *ssa.Call, what string) {
+		recv := call.Call.Value
+		okR, why := nonNilIface(recv, 0)
+		c.Check(okR, "ANY.nopanic", "anyutil.Unpack "+what+" receiver", "receiver is the parameter only on paths where it was tested non-nil, otherwise the global default", "receiver of "+what+" may be a nil interface: "+why, pos(call.Pos()), src)
+	}
+	if find.Call.IsInvoke() {
+		nonNilRecv(find, "FindMessageByURL")
+	}
+	if findDesc.Call.IsInvoke() {
+		nonNilRecv(findDesc, "FindDescriptorByName")
 	}
 	// 1. type resolver consulted first with any.TypeUrl
 	c.Check(len(find.Call.Args) == 1 && isAnyURL(find.Call.Args[0]), "ANY.fallback", "anyutil.Unpack FindMessageByURL arg",
